@@ -38,13 +38,50 @@ def configs(tier, seed):
             heap_config('assertions-len5', {'a', 'anchor', 'empty', 'alt'}, {'followed_by', 'not_preceded_by', 'match_at_line_start', 'enclose', 'one_or_more', 'match', 'group'}, 5, 5)]
 
 
+def simulate_histories(tier, seed, seeds, res):
+    """Deep random behaviours of the heap machine (tlc -simulate), replayed like the exhaustive ones."""
+    import re
+    from .farm import Farm
+    from .tlaval import P
+    from .tlc import run_tlc, runcfg_module
+    n, depth = (40, 9) if tier == 'quick' else (600, 12)
+    defs = {'HLeaves': {'a', 'ab', 'empty', 'alt', 'from', 'dollar', 'altdup'}, 'HOps': set(ALL_OPS) | {'group_ci'}, 'MaxHeap': 8, 'MaxLen': depth}
+    cfg = 'SPECIFICATION Spec\nINVARIANT SimPrint\nINVARIANT AliasSameValue\nPROPERTY HeapImmutable\nCHECK_DEADLOCK FALSE\n'
+    r = run_tlc('PregexHeap', cfg, runcfg_module(defs, extends=['Integers']), workers=1,
+                simulate='num=%d' % n, extra_args=['-depth', str(depth), '-seed', str(seed + 1)], timeout=1800)
+    out = r['out']
+    hists, seen = [], set()
+    cap = 1500 if tier == 'quick' else 20000
+    for m in re.finditer(r'<<\s*"SIMH"', out):
+        if len(hists) >= cap:
+            break
+        try:
+            v = P(out[m.start():]).val()
+        except Exception:  # noqa
+            continue
+        if v[1] not in seen:
+            seen.add(v[1])
+            hists.append((v[1], v[2]))
+    farm = Farm('harness.judge_heap.judge_sim', {'prop': 'C20'}, seeds=seeds, mode='all')
+    for i in range(0, len(hists), 20):
+        farm.submit(hists[i:i + 20])
+    for _, rr in farm.close():
+        res.agg.add(rr)
+    res.runs.append({'name': 'simulate depth %d' % depth, 'module': 'PregexHeap', 'behaviours': len(hists), 'mode': '-simulate',
+                     'invariants': ['AliasSameValue', 'HeapImmutable']})
+    if r['violated']:
+        res.model_violations.append(('PregexHeap simulate', r['violated'], out[-2000:]))
+    return len(hists)
+
+
 def check_C20(tier_arg=None):
     tier, seed = tier_and_seed(tier_arg)
     t0 = time.time()
     seeds = sorted({0, 1, seed % (2 ** 32)}) if tier == 'quick' else list(range(8))
     res = run_generated(configs(tier, seed), 'harness.judge_heap.judge', {'prop': 'C20'}, seeds=seeds, mode='all', batch=50)
+    nsim = simulate_histories(tier, seed, seeds, res)
     st = res.agg.stats
-    cov = {'states': res.states, 'transitions': res.transitions, 'traces_validated_against_impl': st.get('cases', 0),
+    cov = {'simulated_behaviours': nsim, 'states': res.states, 'transitions': res.transitions, 'traces_validated_against_impl': st.get('cases', 0),
            'evaluations': st.get('cases', 0), 'distinct_nontrivial': st.get('nontrivial', 0),
            'rule': 'every history of maximal length of the heap machine (builder calls sharing and aliasing operands, compile, '
                    'get_compiled_pattern, matching) is replayed under every hash seed; after every call every live object is '
